@@ -61,10 +61,12 @@ class NoteContainer(object):
             elif len(self.notes) == 0:
                 note = Note(note, 4, dynamics)
             else:
-                if Note(note, self.notes[-1].octave) < self.notes[-1]:
-                    note = Note(note, self.notes[-1].octave + 1, dynamics)
-                else:
-                    note = Note(note, self.notes[-1].octave, dynamics)
+                top = self.notes[-1]
+                voiced = Note(note, top.octave, dynamics)
+                if "-" not in note:
+                    # at or above the top note and less than an octave above it
+                    voiced.octave += (int(top) - int(voiced) + 11) // 12
+                note = voiced
         if not hasattr(note, "name"):
             raise UnexpectedObjectError(
                 "Object '%s' was not expected. " "Expecting a mingus.containers.Note object." % note
